@@ -50,6 +50,33 @@ pub extern "C" fn close(fd: libc::c_int) -> libc::c_int {
     unsafe { libc::syscall(libc::SYS_close, fd) as libc::c_int }
 }
 
+// Interposed raise(): by default exactly what libc does for the calling thread (a thread-directed
+// signal to itself, delivered before the call returns). A cell can arm one environment deviation:
+// "another thread installs its own handler for this signal right before the library re-raises it"
+// (C15: the terminate-by-default emulation must still end the process).
+pub static RAISE_RACE_SIG: std::sync::atomic::AtomicI32 = std::sync::atomic::AtomicI32::new(0);
+pub static RAISE_RACE_HITS: std::sync::atomic::AtomicU32 = std::sync::atomic::AtomicU32::new(0);
+
+extern "C" fn racing_foreign_handler(_: libc::c_int) {}
+
+#[no_mangle]
+pub extern "C" fn raise(sig: libc::c_int) -> libc::c_int {
+    unsafe {
+        if sig != 0 && sig == RAISE_RACE_SIG.load(std::sync::atomic::Ordering::SeqCst) {
+            RAISE_RACE_HITS.fetch_add(1, std::sync::atomic::Ordering::SeqCst);
+            let mut sa: libc::sigaction = std::mem::zeroed();
+            sa.sa_sigaction = racing_foreign_handler as usize;
+            libc::sigaction(sig, &sa, std::ptr::null_mut());
+        }
+        let r = libc::syscall(libc::SYS_tgkill, libc::getpid(), libc::syscall(libc::SYS_gettid) as libc::pid_t, sig);
+        if r == 0 {
+            0
+        } else {
+            -1
+        }
+    }
+}
+
 pub fn close_count(fd: i32) -> u32 {
     if fd >= 0 && (fd as usize) < 1024 {
         CLOSE_COUNT[fd as usize].load(std::sync::atomic::Ordering::SeqCst)
